@@ -69,9 +69,18 @@ def snapshot(pc, target_ast):
             raise ValueError("non-dyadic weight")
         parts.append({"choices": canon_cm(target_ast, slice_lane(ch, i)), "lw": int(round(lwi)),
                       "ret": canon_val(slice_lane(rets, i)), "score": int(round(float(sc_vec[i])))})
+    # a test function of the choices: the value at the first address (harness-side per-particle values)
+    a0 = sorted(ch.keys())[0]
+    fvals = [int(round(float(np.asarray(ch[a0])[i]))) for i in range(n)]
+    fest = Fraction(float(pc.estimate(lambda c: jnp.asarray(c[a0], dtype=jnp.float32))))
+    fvec = pc.estimate(lambda c: jnp.stack([jnp.asarray(c[a0], dtype=jnp.float32), jnp.asarray(c[a0], dtype=jnp.float32) ** 2]))
+    fest2 = Fraction(float(fvec[1]))
+    if abs(float(fvec[0]) - float(fest)) > 1e-5 * (1 + abs(float(fest))):
+        raise ValueError("estimate of a vector-valued function disagrees with the scalar estimate")
     fe = Fraction(float(jnp.exp(pc.log_marginal_estimate)))
     fl = Fraction(float(jnp.exp(pc.log_marginal_likelihood())))
-    return {"parts": parts, "est": [fe.numerator, fe.denominator], "lml": [fl.numerator, fl.denominator]}
+    return {"parts": parts, "est": [fe.numerator, fe.denominator], "lml": [fl.numerator, fl.denominator],
+            "fvals": fvals, "fest": [fest.numerator, fest.denominator], "fest2": [fest2.numerator, fest2.denominator]}
 
 
 def make_case(rng):
